@@ -169,6 +169,16 @@ std::string handle(const std::string& op, Args& a)
 					double vu		= query(obj, c);
 					double vf		= query(f, c);
 					o << "V" << vu << vf;
+					// "changes all outputs by exactly the factor": the same query (extrema swapped for a negative factor)
+					// on an object whose prefactor was never touched
+					if(p_set && (c.t == "I" || c.t == "D" || c.t == "m" || c.t == "M" || c.t == "gm" || c.t == "gM"))
+					{
+						Interpolation u = fresh(1.0, false, false);
+						Op cu			= c;
+						if(p < 0)
+							cu.t = c.t == "m" ? "M" : c.t == "M" ? "m" : c.t == "gm" ? "gM" : c.t == "gM" ? "gm" : c.t;
+						o << "S" << query(u, cu) << p;
+					}
 				}
 			}
 			for(const Op& c : q)
@@ -297,6 +307,14 @@ std::string handle(const std::string& op, Args& a)
 					double vu		   = query2(*objp, c);
 					double vf		   = query2(g, c);
 					o << "V" << vu << vf;
+					if(p_set)
+					{
+						Interpolation_2D u = fresh(1.0, false);
+						Op cu			   = c;
+						if(p < 0)
+							cu.t = c.t == "gm" ? "gM" : c.t == "gM" ? "gm" : c.t;
+						o << "S" << query2(u, cu) << p;
+					}
 				}
 			}
 			for(const Op& c : q)
